@@ -444,7 +444,7 @@ class ANF:
         at_least_once = False
         if isinstance(s, ast.For):
             it = self.eval(s.iter, env, cond, loops)
-            if it[0] == "dict" and all(k_ != C("**") for k_, _ in it[1]):
+            if it[0] == "dict" and all(k_[0] in ("c", "k") and k_ != C("**") for k_, _ in it[1]):
                 it = ("list", tuple(k_ for k_, _ in it[1]))             # iterating a dictionary display iterates its keys
             # literal sequence of constants / tuples: unroll
             if it[0] in ("list", "tuple") and len(it[1]) <= 16 and not s.orelse:
@@ -748,7 +748,7 @@ class ANF:
             gens = []
             for g in e.generators:
                 it = self.eval(g.iter, e2, cond, loops)
-                if it[0] == "dict" and all(k_ != C("**") for k_, _ in it[1]):
+                if it[0] == "dict" and all(k_[0] in ("c", "k") and k_ != C("**") for k_, _ in it[1]):
                     it = ("list", tuple(k_ for k_, _ in it[1]))         # iterating a dictionary display iterates its keys
                 self._bound += 1
                 b = self._bound
@@ -929,7 +929,7 @@ class ANF:
                     except Exception:
                         pass
                 if recv[0] == "dict" and f.attr in ("keys", "values", "items") and not args and not kw \
-                        and all(k_ != C("**") for k_, _ in recv[1]):
+                        and all(k_[0] in ("c", "k") and k_ != C("**") for k_, _ in recv[1]):
                     # the keys / values / items of a dictionary display are the displays of them
                     if f.attr == "keys":
                         return ("list", tuple(k_ for k_, _ in recv[1]))
